@@ -81,6 +81,9 @@ func gwProjects(c *core.Ctx, n, years int, salt int64) []*gen.Project {
 		from := []string{"gwTimeSeries", "polygonfile", "gwTimeSeries", "soilfile", "polygonfile"}[i%5]
 		o := gen.Opts{Years: years, MinLayers: 3, MaxLayers: 20, GWFrom: []string{from}, ShallowGW: true, NoCrops: i%2 == 0, Stones: i%4 == 1 || i%4 == 0, MaxStone: 60,
 			HighCorg: i%3 == 0, Schedules: i%3 == 1, BeginAnyDay: i%2 == 1, DateFormats: []int{1, 3, 0}}
+		if i%10 == 6 {
+			o.PTF = 1 + (i/10+int(c.Seed))%4 // pedotransfer route under a moving table: the parameters stay those of the function
+		}
 		p := gen.Random(r, fmt.Sprintf("g%d_%d", c.Seed, i), o)
 		b, e := p.Rotation[0].Harv, p.Cfg.End
 		if from == "gwTimeSeries" {
@@ -114,7 +117,7 @@ func gwProjects(c *core.Ctx, n, years int, salt int64) []*gen.Project {
 			p.GWLow = p.GWHigh + r.Intn(30)
 			p.Cfg.GWPhase = []int{80, 0, 1, 179, 180, 270, 359, 45}[r.Intn(8)]
 		}
-		explicit := i%2 == 1 || i%6 == 2
+		explicit := (i%2 == 1 || i%6 == 2) && o.PTF == 0
 		if explicit {
 			// explicit field capacity / wilting point / pore volume in every horizon (restore-from-backup path of the
 			// daily groundwater block); every third one starts with the table inside the profile and lets it fall
@@ -136,7 +139,7 @@ func gwProjects(c *core.Ctx, n, years int, salt int64) []*gen.Project {
 				p.GWLow = p.GWHigh + 2 + r.Intn(20)
 			}
 		}
-		p.Arms = []string{fmt.Sprintf("gw=%s points=%d high=%d low=%d phase=%d explicit=%v", from, len(p.GWSeries), p.GWHigh, p.GWLow, p.Cfg.GWPhase, explicit)}
+		p.Arms = []string{fmt.Sprintf("gw=%s points=%d high=%d low=%d phase=%d explicit=%v ptf=%d", from, len(p.GWSeries), p.GWHigh, p.GWLow, p.Cfg.GWPhase, explicit, o.PTF)}
 		if !explicit && from == "gwTimeSeries" && i%10 == 0 {
 			// texture-table route with the smallest available water capacities of the table (dense medium sands, little
 			// humus) under a table that wanders through all groundwater classes of the table (shallower than 9 dm ...
